@@ -52,7 +52,7 @@ func runC07(x *mc.X) {
 	rounds := mc.Pick(x, "rounds", []int{1, 2})
 	// the store is not in mint condition: one variant's entry is gone (evicted by an external clean-up), or one Delete fails
 	damage := mc.Pick(x, "store-damage", []string{"none", "first variant's entry evicted", "second variant's entry evicted", "first delete fails", "second delete fails"})
-	if damage != "none" && !(nVar == 3 && rounds == 1 && status == 200 && (method == "POST" || method == "DELETE" || method == "FOO")) {
+	if damage != "none" && !(nVar == 3 && rounds == 1 && (x.Tier() == "thorough" || (status == 200 && (method == "POST" || method == "DELETE" || method == "FOO")))) {
 		x.Skip()
 	}
 
